@@ -29,12 +29,13 @@ theorem Gone.rem_change {rem rem' : List Cb} {s : KState ℚ σ} (hb : ∀ c, Cb
 
 theorem CInv.rem_change {rem rem' : List Cb} {e0 : EvId} {s : KState ℚ σ} (hc : CInv rem e0 s)
     (hb : ∀ c, Cb.build c ∈ rem' ↔ Cb.build c ∈ rem) (hk : ∀ c, rem'.count (.check c) = rem.count (.check c))
-    (hbc : ∀ c, rem'.count (.build c) ≤ 1) : CInv rem' e0 s := by
+    (hbc : ∀ c, rem'.count (.build c) ≤ 1) (hne : rem' ≠ [] → rem ≠ []) : CInv rem' e0 s := by
   have hg : ∀ d, Gone rem' s d ↔ Gone rem s d := fun d =>
     ⟨Gone.rem_change (fun c => (hb c).mpr), Gone.rem_change (fun c => (hb c).mp)⟩
   have hm : ∀ c, Cb.check c ∈ rem' ↔ Cb.check c ∈ rem := fun c => by
     rw [← List.count_pos_iff, ← List.count_pos_iff, hk]
-  refine ⟨hc.older, ?_, ?_, ?_, ?_, hc.bld_own, hc.bld_cnt, ?_, hbc, ?_, ?_, hc.unmet, hc.met, hc.failsrc⟩
+  refine ⟨hc.older, ?_, ?_, ?_, ?_, hc.bld_own, hc.bld_cnt, ?_, hbc, fun h => hc.e0_done (hne h), ?_, ?_, hc.unmet, hc.met,
+    hc.failsrc⟩
   · intro c h; exact hc.chk_att c (fun hh => h ((hg c).mpr hh))
   · intro c h; exact hc.chk_gone c ((hg c).mp h)
   · intro c h; exact hc.rem_att c ((hm c).mp h)
@@ -48,7 +49,7 @@ theorem CInv.rem_change {rem rem' : List Cb} {e0 : EvId} {s : KState ℚ σ} (hc
 /-- a callback that is not condition bookkeeping leaves the pending list -/
 theorem CInv.drop_plain {cb : Cb} {rest : List Cb} {e0 : EvId} {s : KState ℚ σ} (hc : CInv (cb :: rest) e0 s)
     (hp : plainCb cb = true) : CInv rest e0 s := by
-  refine hc.rem_change ?_ ?_ ?_
+  refine hc.rem_change ?_ ?_ ?_ (fun _ => by simp)
   · intro c
     rw [List.mem_cons]
     constructor
@@ -80,7 +81,7 @@ theorem Gone.drop_plain {cb : Cb} {rest : List Cb} {s : KState ℚ σ} (hp : pla
 /-- between two steps the ghost event is irrelevant -/
 theorem CInv.e0_irrel {e0 : EvId} {s : KState ℚ σ} (hc : CInv [] e0 s) (x : EvId) : CInv [] x s := by
   refine ⟨hc.older, hc.chk_att, hc.chk_gone, (fun c h => by cases h), hc.rem_gone, hc.bld_own, hc.bld_cnt, (fun c h => by cases h),
-   hc.rem_bld_cnt, hc.cnt, ?_, hc.unmet, hc.met, hc.failsrc⟩
+   hc.rem_bld_cnt, (fun h => absurd rfl h), hc.cnt, ?_, hc.unmet, hc.met, hc.failsrc⟩
   intro c h1 h2 h3 e he hp x hx
   have := (hc.nofail c h1 h2 h3 e he hp x hx).2
   cases this
@@ -181,7 +182,12 @@ theorem CInv.openEvent {lv strict : Bool} {x0 : EvId} {s : KState ℚ σ} (hc : 
   have hLg : ∀ c, Gone [] s c → L.count (.check c) = 0 := fun c hg =>
     List.count_eq_zero.mpr (hc.chk_gone c hg q.ev L hL)
   have hLa : ∀ c, ¬ Gone [] s c → L.count (.check c) = (ops s c).count q.ev := fun c hg => hc.chk_att c hg q.ev L hL
-  refine ⟨?_, ?_, ?_, ?_, ?_, ?_, ?_, ?_, ?_, ?_, ?_, ?_, ?_, ?_⟩
+  refine ⟨?_, ?_, ?_, ?_, ?_, ?_, ?_, ?_, ?_, ?_, ?_, ?_, ?_, ?_, ?_⟩
+  rotate_left 9
+  · intro _
+    refine ⟨by unfold _root_.openEvent; simpa using hlt, ?_⟩
+    rw [hcbs, if_pos rfl]
+  rotate_right 9
   · intro c e he; rw [hS.ops_eq] at he; exact hc.older c e he
   · intro c hg e L1 hL1
     obtain ⟨_, h1⟩ := hlist e L1 hL1
